@@ -60,6 +60,11 @@ type bStep struct {
 	File *bFile `json:"file,omitempty"`
 }
 
+type bPre struct {
+	Name string     `json:"name"`
+	Held [][2]int64 `json:"held"`
+}
+
 // a fault for the K-th call (1-based) of one kind
 type bFault struct {
 	Kind string `json:"kind"` // transmit | txrecover | validate | recover
@@ -85,9 +90,12 @@ type bScenario struct {
 	Files    []bFile  `json:"files"`
 	Steps    []bStep  `json:"steps"`
 	Faults   []bFault `json:"faults"`
-	DelDelay int      `json:"deldelay"` // delete delay in seconds (relative to the file's time, as canDelete has it)
-	PollMs   int      `json:"pollms"`   // poll delay and interval in ms (default 5; the scan delay is 40)
-	Settle   int      `json:"settle"`   // ms to keep running after the last step before the final graceful stop
+	// what the receiver holds of a file when the crashed sender restarts: byte ranges that the crashed
+	// sender is taken to have transmitted (sent here, through the real client, at the first restart)
+	Prestage []bPre `json:"prestage,omitempty"`
+	DelDelay int    `json:"deldelay"` // delete delay in seconds (relative to the file's time, as canDelete has it)
+	PollMs   int    `json:"pollms"`   // poll delay and interval in ms (default 5; the scan delay is 40)
+	Settle   int    `json:"settle"`   // ms to keep running after the last step before the final graceful stop
 }
 
 // ---------------------------------------------------------------- receiver side (shared)
@@ -861,6 +869,9 @@ func runSender(sc *bScenario, recv *recvSide, work string) []map[string]any {
 		}
 		if crashed {
 			hc.Destroy()
+			if round == 0 {
+				b.prestage()
+			}
 			b.emit(map[string]any{"op": "restart"})
 			continue
 		}
@@ -886,6 +897,38 @@ func (r *recvSide) stage(source string) *stage.Stage {
 	r.mu.Lock()
 	defer r.mu.Unlock()
 	return r.stages[source]
+}
+
+// prestage transmits the byte ranges of the scenario's "prestage" entries, one request per range,
+// the way the crashed sender would have (same source, hash, time, no predecessor).
+func (b *bRun) prestage() {
+	if len(b.sc.Prestage) == 0 {
+		return
+	}
+	hc := &stshttp.Client{SourceName: b.source, TargetHost: "127.0.0.1", TargetPort: b.recv.port, Timeout: 10 * time.Second,
+		PartialsDecoder: stage.ReadCompanions, Protocol: stshttp.ParseProtocol("http")}
+	defer hc.Destroy()
+	for _, pre := range b.sc.Prestage {
+		p := filepath.Join(b.out(), pre.Name)
+		info, err := os.Stat(p)
+		if err != nil {
+			continue
+		}
+		data, _ := os.ReadFile(p)
+		f := &fFile{path: p, name: pre.Name, size: info.Size(), t: info.ModTime(), hash: fmt.Sprintf("%x", md5.Sum(data))}
+		for _, r := range pre.Held {
+			bin := payload.NewBin(1<<20, func(sf sts.File) (sts.Readable, error) {
+				fh, err := os.Open(sf.GetPath())
+				if err != nil {
+					return nil, err
+				}
+				return osReadable{fh}, nil
+			}, nil)
+			bin.Add(client.VerifNewBinnable(&fChunk{fFile: f, prev: "", off: r[0], n: r[1] - r[0]}, "", true))
+			n, err := hc.Transmit(bin)
+			b.emit(map[string]any{"op": "prestage", "name": pre.Name, "beg": r[0], "end": r[1], "n": n, "err": fmt.Sprint(err)})
+		}
+	}
 }
 
 func (b *bRun) quiesce() {
